@@ -1079,6 +1079,9 @@ def check_C02(tier, seed):
         for g in (range(64) if tier != "quick" else [(4 * k + seed) % 64 for k in range(16)]):
             s = opacity_square_sprite(g)
             out.append((s, gen.encode(s, None, rng)))
+        for g in range(16 if tier == "quick" else 96):
+            s = covering_sprite(g, rng)
+            out.append((s, gen.encode(s, None, rng)))
         return out
     return run_sprites("C02", tier, seed, 2, 300, 4000, dict(max_canvas=10, max_layers=8, max_frames=3, rich=False), [1, 22],
                        direct_C02,
@@ -1166,6 +1169,9 @@ def check_C19(tier, seed):
                 lay["level"] = 0
                 if lay["ltype"] == 1:
                     lay["ltype"] = 0
+            out.append((s, gen.encode(s, None, rng)))
+        for g in range(16 if tier == "quick" else 96):
+            s = covering_sprite(g, rng)
             out.append((s, gen.encode(s, None, rng)))
         return out
     return run_sprites("C19", tier, seed, 15, 200, 3000, dict(max_canvas=6, max_layers=5, max_frames=4, rich=False),
@@ -1598,6 +1604,25 @@ def opacity_square_sprite(g: int) -> dict:
             "has_tags_chunk": False, "slices": []}
 
 
+def covering_sprite(g: int, rng: random.Random) -> dict:
+    """ONE layer whose cel covers the canvas exactly (256 x 1 at the origin, alpha = x: every alpha value), in 4 frames with
+    layer and cel opacities strictly inside 1..254 (pair g of a fixed list and three random ones): the plainest possible frame -
+    bottom-most cel, Normal or any other mode over the blank canvas - where the two roundings of the opacity product and of the
+    alpha scaling must still be applied in the order the composition formula gives"""
+    lo = [100, 101, 102, 103, 77, 200, 254, 1, 128, 129, 50, 150, 33, 66, 99, 250][g % 16]
+    cos = [[103, 101, 254, 1], [2, 127, 128, 200], [100, 150, 77, 253]][g % 3]
+    layers = [{"flags": 1, "ltype": 0, "level": 0, "blend": 0 if g % 4 else rng.randrange(19), "opacity": lo, "name": "c", "tileset": 0, "ud": None,
+               "default_w": 0, "default_h": 0}]
+    cels = {}
+    for f in range(4):
+        co = cos[f] if f else rng.randrange(2, 254)
+        cels[(f, 0)] = {"kind": rng.choice(["raw", "zlib"]), "x": 0, "y": 0, "w": 256, "h": 1, "opacity": co, "ud": None,
+                        "pixels": [((x * 3 + f) & 255, (200 - x) & 255, (x ^ g) & 255, x) for x in range(256)]}
+    return {"width": 256, "height": 1, "depth": 32, "transparent": 0, "durations": [100] * 4, "speed": 100, "palette_chunks": [],
+            "palette": None, "sprite_ud": None, "ext_files": [], "tilesets": [], "layers": layers, "cels": cels, "tags": [],
+            "has_tags_chunk": False, "slices": []}
+
+
 def direct_C09(s, data, blk) -> List[str]:
     out = []
     levels = [l["level"] for l in s["layers"]]
@@ -1724,14 +1749,28 @@ def check_C18(tier: str, seed: int) -> int:
             fr = ase.Frame(chunks=[ase.PaletteChunk(first=first, entries=cols)])
             path = w.put(ase.serialize(ase.Sprite(width=1, height=1, frames=[fr])), "pal")
             pal = {first + k: c for k, c in enumerate(cols)}
-            failure, transparent = rng.randrange(256), rng.choice([-1, rng.randrange(256)])
+            # the failure and the transparent index are often indices of the palette itself (an opaque colour that occurs only at the
+            # transparent index still maps to that index), and may coincide
+            keys = [k for k in pal if k < 256] or [0]
+            failure = rng.choice([rng.randrange(256), rng.choice(keys), 0])
+            transparent = rng.choice([-1, rng.randrange(256), rng.choice(keys), rng.choice(keys), failure])
+
+            def queries(n):
+                # colours of the palette and colours near them; the SAME colour is asked several times in a row with different alphas
+                # (the answer for one pixel must not depend on the pixel asked before it)
+                out = []
+                while len(out) < n:
+                    c = rng.choice(cols)[:3] if rng.random() < 0.6 else (rng.randrange(5), rng.randrange(4), rng.randrange(3))
+                    for a in rng.choice([[255], [255, 128, 255], [0, 255], [255, 254, 100, 0, 255], [rng.choice([255, 255, 254, 0])]]):
+                        out.append((c[0], c[1], c[2], a))
+                return out[:n]
             if i % 2 == 0:
-                q = [(rng.randrange(5), rng.randrange(4), rng.randrange(3), rng.choice([255, 255, 255, 254, 0])) for _ in range(12)]
+                q = queries(12)
                 lines.append("M %s %d %d %d %s" % (path, failure, transparent, len(q), " ".join("%d %d %d %d" % c for c in q)))
                 meta.append(("M", pal, failure, transparent, q))
             else:
                 wd, ht = rng.randint(1, 5), rng.randint(1, 5)
-                q = [(rng.randrange(5), rng.randrange(4), rng.randrange(3), rng.choice([255, 255, 255, 254, 0])) for _ in range(wd * ht)]
+                q = queries(wd * ht)
                 packed = [r | g << 8 | b << 16 | a << 24 for r, g, b, a in q]
                 if i % 3 == 2:
                     # the image sits in a container longer than 4 * w * h bytes: the extra bytes are not pixels
@@ -1851,10 +1890,14 @@ def blend_image(mode: int, k: int, variant: str, rng: random.Random, size: int =
     # the layer flags other than "visible" (editable, lock movement, background, prefer linked cels, collapsed, reference) do not
     # take part in compositing an RGBA sprite
     fl = 1 | rng.choice([0, 0, 2, 4, 8, 12, 16, 32, 64, 126])
-    fr = ase.Frame(chunks=[
-        ase.LayerChunk(flags=1, blend=0, opacity=255, name="b"), ase.LayerChunk(flags=fl, blend=mode, opacity=lo, name="s"),
-        ase.CelChunk(layer=0, w=size, h=size, pixels=ase.rgba_bytes(B), ctype_cel=2, zlevel=1),
-        ase.CelChunk(layer=1, w=size, h=size, opacity=co, pixels=ase.rgba_bytes(S), ctype_cel=2, zlevel=1)])
+    # layers WITHOUT cels below, between and above the two (their modes and opacities must not matter; the two cels then sit on
+    # sparse layer indices such as {2, 5} of 9)
+    p0, p1, p2 = rng.choice([(0, 0, 0), (0, 0, 0), (2, 2, 1), (3, 0, 4), (0, 3, 0), (7, 9, 3), (0, 62, 0), (1, 0, 0)])
+    pad = lambda n, tag: [ase.LayerChunk(flags=1, blend=rng.randrange(19), opacity=rng.choice([255, 0, 128]), name="%s%d" % (tag, i)) for i in range(n)]
+    fr = ase.Frame(chunks=pad(p0, "u") + [ase.LayerChunk(flags=1, blend=0, opacity=255, name="b")] + pad(p1, "m")
+                   + [ase.LayerChunk(flags=fl, blend=mode, opacity=lo, name="s")] + pad(p2, "o") + [
+        ase.CelChunk(layer=p0, w=size, h=size, pixels=ase.rgba_bytes(B), ctype_cel=2, zlevel=1),
+        ase.CelChunk(layer=p0 + 1 + p1, w=size, h=size, opacity=co, pixels=ase.rgba_bytes(S), ctype_cel=2, zlevel=1)])
     return ase.serialize(ase.Sprite(width=size, height=size, frames=[fr])), B, S, lo, co
 
 
@@ -2330,7 +2373,7 @@ def c10_program(seq: List[str], uds: List[dict], splits: Tuple[int, ...] = ()):
             n = int(e[4:])
             have_tags = True
             ntags = n
-            chunks0.append(ase.TagsChunk(tags=[ase.Tag(name="T%d" % i) for i in range(n)]))
+            chunks0.append(ase.TagsChunk(tags=[ase.Tag(name="T%d" % i, color=((0x01C86432 * (i + n)) & 0xFFFFFFFF) if (i + n) % 3 else 0, reserved=bytes([(i * 37 + 5) & 255] * 6) if i % 2 else b"\0" * 6, repeat=3 * (i % 2)) for i in range(n)]))
             ctx = ("tag", 0, n)
         elif e == "oldpal":
             chunks0.append(ase.OldPaletteChunk(packets=[(0, [(1, 2, 3)])]))
